@@ -65,8 +65,30 @@ def run(pid, only=None, checks=None, tier="quick"):
     sh(f"git -C {VERIF} checkout -- lean/NmfuModel/Generated")
 
 
+def summary():
+    rows = []
+    for f in sorted(glob.glob(os.path.join(VERIF, "seeded", "*", "*", "result.json"))):
+        d = json.load(open(f))
+        pid, n = f.split(os.sep)[-3:-1]
+        m = json.load(open(f.replace("result.json", "meta.json")))
+        by = [c for c, v in d["checks"].items() if v["exit"] == 1 and v["violations"] > 0]
+        rows.append((pid, n, "yes (" + ", ".join(by) + ")" if by else ("patch does not apply" if not d["applied"] else "NO"),
+                     (m.get("summary") or "")[:150].replace("|", "/")))
+    out = ["# Seeded changes and what the registered checks said", "",
+           "Each change keeps the 138 tests green and breaks its property (see `demonstration` next to the patch).",
+           "`detected` = the quick tier of the listed check exits 1 with a VIOLATION line while the patch is applied to /repo.", "",
+           "| property | n | detected | change |", "|---|---|---|---|"]
+    out += [f"| {a} | {b} | {c} | {d} |" for a, b, c, d in rows]
+    det = sum(1 for r in rows if r[2].startswith("yes"))
+    out += ["", f"{det} of {len(rows)} detected."]
+    open(os.path.join(VERIF, "seeded", "SUMMARY.md"), "w").write("\n".join(out) + "\n")
+    print(f"{det} of {len(rows)} detected")
+
+
 if __name__ == "__main__":
-    if sys.argv[1] == "import":
+    if sys.argv[1] == "summary":
+        summary()
+    elif sys.argv[1] == "import":
         do_import(sys.argv[2])
     else:
         args = sys.argv[2:]
